@@ -9,7 +9,7 @@ is known), `buildP` computes it.  `hasMissing` = HasMissingNodes (iterate with i
 import Verif.Lemmas.MptPartial
 namespace Verif.Props.C17
 open Verif.Partial Verif.Codec
-open Verif.Mpt (Bytes Nib Node key WFn)
+open Verif.Mpt (Bytes Nib Node key WFn nibChar lookup)
 
 /-- HasMissingNodes answers true exactly when some `missing` node occurs in the partial tree: no error swallowed in a
     branch loop, no false "complete" -/
@@ -87,6 +87,20 @@ theorem C17_repair_complete (H : Bytes → Bytes) (hH : ∀ b, (H b).length = 32
     | cons k l =>
       have : k ∈ allMissing (toP t) := by rw [hl]; simp
       exact absurd ((C17_all_missing _ k).mp this) (not_occurs_toP k t)
+
+/-- … and reads its full content again: on the repaired store the model's `buildP` (any fuel beyond the depth) yields a
+    tree on which every lookup answers what the structural trie `t` holds at that path -/
+theorem C17_repair_reads (H : Bytes → Bytes) (hH : ∀ b, (H b).length = 32) (t : Node) (pre : List Nib) (hw : WFn t)
+    (sFull s : Store) (donor : List (Bytes × Repr)) (v : Nat)
+    (hfull : Resolves H sFull.get t pre)
+    (hsub : ∀ k b, s.get k = some b → sFull.get k = some b)
+    (hdonor : ∀ e ∈ donor, sFull.get e.1 = some (encode e.2))
+    (hcover : ∀ k b, sFull.get k = some b → s.get k = some b ∨ ∃ r, (k, r) ∈ donor)
+    (n : Nat) (hn : depth (toP t) < n) (p : List Nib) :
+    lookupP (buildP (mergeDB v s donor).get n (key H t pre)) (p.map nibChar) = ofOpt (lookup t p) := by
+  have hu := (C17_repair_complete H hH t pre hw sFull s donor v hfull hsub hdonor hcover).1
+  rw [buildP_complete _ _ _ hu n hn]
+  exact lookupP_toP t p
 
 /-- non-vacuity of the repair hypotheses: a one-leaf trie, its only node removed from the store, the donor holding it -/
 example : ∃ (H : Bytes → Bytes) (t : Node) (sFull s : Store) (donor : List (Bytes × Repr)),
